@@ -203,6 +203,9 @@ def run(ck):
         p = byname[o['pred']]
         rp = {'program': text, 'history': hist, 'step': step, 'pred': p.name}
         exp = semcheck.canon_model_rows(model['result'][p.name], p)
+        if o['kind'] == 'too_big':
+          ck.features['capacity-skipped'] += 1
+          break
         if o['kind'] != 'ok':
           ck.violation('c17:run-fails:%s' % o['kind'], 'step %d: running %s fails: %s %s' % (step, p.name, o['kind'], o['message'][:160]), rp)
           break
